@@ -104,6 +104,7 @@ def c01(run):
     P = run.prog('rel')
     r_codec.run(run, P)
     r_codec.run_toklen(run, P)
+    r_codec.run_tokext(run, P)
     r_width.run_a(run, P)
     r_fixup.run_stale(run, P, only=_codec_funcs(P))
     r_fixup.run_pairing(run, P)
@@ -123,6 +124,7 @@ def c03(run):
     r_width.run_b(run, P)
     r_codec.run(run, P)
     r_codec.run_toklen(run, P)
+    r_codec.run_tokext(run, P)
     r_parsegate.run(run, P)
     r_parsegate.run_outputs(run, P)
     run.min_instances('R-WIDTH', 4)
@@ -145,6 +147,7 @@ def c04(run):
     from rules import r_codec
     r_codec.run(run, P)
     r_codec.run_toklen(run, P)
+    r_codec.run_tokext(run, P)
     run.min_instances('R-FIXUP', 8)
     run.assumptions = ASSUME_COMMON + ["equality with the list model after arbitrary edit sequences is NOT decided"]
     return run.finish(
@@ -358,6 +361,9 @@ def c02(run):
     r_range.run_cbor_reader(run, P)
     r_shift.run(run, P, units=('oscore.c', 'oscore_cbor.c'))
     r_stream.run_cap(run, P)
+    r_stream.run_adv(run, P)
+    r_stream.run_phase(run, P)
+    r_stream.run_cursor(run, P)
     r_parsegate.run(run, P)
     r_fixup.run_stale(run, P)
     from rules import r_cmpbound
